@@ -134,13 +134,18 @@ impl TplLitTypeItem {
             TplLitTypeItem::OneOf(vs) => {
                 let mut vs = vs.iter().collect::<Vec<_>>();
                 vs.sort();
-                let vs = vs
+                let all = vs
                     .into_iter()
                     .map(|it| it.regex_expr())
+                    .collect::<Vec<_>>();
+                // an empty alternative has no pattern of its own: it makes the group optional
+                let optional = if all.iter().any(|it| it.is_empty()) { "?" } else { "" };
+                let vs = all
+                    .into_iter()
                     .filter(|it| !it.is_empty())
                     .collect::<Vec<_>>();
                 let vs = vs.join("|");
-                format!("({})", vs)
+                format!("({}){}", vs, optional)
             }
             TplLitTypeItem::StringConst(lit) => {
                 if lit.is_empty() {
